@@ -522,6 +522,20 @@ def mon_card(ctx):
             if field in rec and card_pair(rec[field]) != pair:
                 return ("card.accepts-valid", "assignment of the valid cardinality %r stored %r" %
                         (pair, card_pair(rec[field])))
+    if ctx.name in ("set_card", "set_card2") and kind_of(ctx.args.get("x")) in ("sec", "prop") \
+            and not ctx.raised:
+        # what an assignment stores is a function of the assigned value: not of the setting the
+        # object had before, not of the object
+        given = ctx.args.get("v") if ctx.name == "set_card" else (ctx.args.get("lo"), ctx.args.get("hi"))
+        field = {"val": "val_card", "sec": "sec_card", "prop": "prop_card"}.get(ctx.op.get("which"))
+        rec = ctx.post["objs"][ctx.U.index(ctx.args["x"])]
+        if field in rec:
+            memo = ctx.mem.setdefault("card_memo", {})
+            key = repr(given)
+            if key in memo and memo[key] != rec[field]:
+                return ("card.form", "assigning %r stored %r now and %r before (the result depends "
+                        "on something else than the assigned value)" % (given, rec[field], memo[key]))
+            memo.setdefault(key, rec[field])
     if ctx.name in ("set_card", "set_card2") and kind_of(ctx.args.get("x")) in ("sec", "prop"):
         # one object's setting: nobody else's cardinality moves with it
         me = ctx.U.index(ctx.args["x"])
@@ -872,6 +886,9 @@ def mon_valid(ctx):
         else:
             if not out["empty_at_start"]:
                 return ("valid.private", "a Validation created with reset=True already has rules")
+            if not out.get("late_rule_applied", True):
+                return ("valid.private", "a rule registered on a reset Validation after its first run "
+                        "is not applied by the next run (or not to the same objects)")
             if any(i[3] != "simkit-marker" for i in out["issues"]):
                 return ("valid.private", "a reset Validation applied rules that were not "
                         "registered on it: %r" % ([i for i in out["issues"]
